@@ -11,6 +11,7 @@ is stored in case["trace"]; the Coq side replays it through the model's step
 relation (run_case) and runs the property monitor on it (check_case).
 """
 import asyncio
+import errno
 import random
 import select as real_select_mod
 import socket as real_socket_mod
@@ -62,14 +63,18 @@ class Recorder:
     # ---- canonical names ----
     def fdid(self, fd):
         st = self.st
-        if st is not None and (fd is st.__dict__.get("_waker_r") or fd == self.waker_fileno):
+        if isinstance(fd, int):
+            # the EBADF recovery path reports `[self._waker_r.fileno()]`: an int that is not a key of
+            # _readers, so _handle_event ignores it (KeyError).  Rendered as absent.
+            return None if fd == self.waker_fileno else -1
+        if st is not None and fd is st.__dict__.get("_waker_r"):
             return 0
         return self.socks[id(fd)]
 
     waker_fileno = -1
 
     def ids(self, fds):
-        return [self.fdid(f) for f in fds]
+        return [x for x in (self.fdid(f) for f in fds) if x is not None]
 
     def cond_view(self):
         st = self.st
@@ -207,7 +212,11 @@ def make_shims(R):
     class SelectShim:
         def select(self, r, w, x, timeout=None):
             if timeout is not None:
-                return real_select_mod.select(r, w, x, timeout)
+                with R.lock:
+                    res = real_select_mod.select(r, w, x, timeout)
+                    if list(r) == [R.waker_fileno] and not w and not x and timeout == 0:
+                        R.rec(("WakerPoll", bool(res[0])))
+                return res
             R.rec(("SelectCall", R.ids(r), R.ids(w)) if list(w) == list(x) else ("SelectCallOdd",))
             R.jitter()
             end = time.time() + deadline()
@@ -215,7 +224,12 @@ def make_shims(R):
                 # a zero-timeout poll under the trace lock: the readiness seen and the
                 # record of it are atomic w.r.t. every recorded readiness change
                 with R.lock:
-                    rs, ws, xs = real_select_mod.select(r, w, x, 0)
+                    try:
+                        rs, ws, xs = real_select_mod.select(r, w, x, 0)
+                    except OSError as e:
+                        if e.errno == errno.EBADF:
+                            R.rec(("SelectErr",))
+                        raise
                     if rs or ws or xs:
                         R.rec(("SelectRet", R.ids(rs), R.ids(ws), R.ids(xs)))
                         break
@@ -285,12 +299,25 @@ def make_class(ST, R):
 # --------------------------------------------------------------------------
 # scenario execution
 # --------------------------------------------------------------------------
+class FdKey:
+    """what user code registers: an object with fileno() (like the seed's demo) whose descriptor can be
+    closed after it was unregistered; a stale snapshot then makes select() fail with EBADF"""
+
+    def __init__(self, sock):
+        self.sock = sock
+        self.fd = sock.fileno()
+
+    def fileno(self):
+        return self.fd
+
+
 class World:
     def __init__(self, R, case):
         self.R = R
         self.case = case
         self.socks = []
         self.peers = []
+        self.keys = []
         self.ncb = 0
         self.cblog = []
         self.fired = {}
@@ -301,7 +328,8 @@ class World:
             a.setsockopt(real_socket_mod.SOL_SOCKET, real_socket_mod.SO_SNDBUF, 4096)
             self.socks.append(a)
             self.peers.append(b)
-            R.socks[id(a)] = i + 1
+            self.keys.append(FdKey(a))
+            R.socks[id(self.keys[-1])] = i + 1
 
     def close(self):
         for s in self.socks + self.peers:
@@ -350,7 +378,7 @@ class World:
         if not R.active:
             # a _handle_select that was already queued when close() returned still runs (and still
             # dispatches user fds); that is outside the recorded window and outside the model
-            (self.st.remove_reader if k == "r" else self.st.remove_writer)(self.socks[i - 1])
+            (self.st.remove_reader if k == "r" else self.st.remove_writer)(self.keys[i - 1])
             return
         R.rec(("Callback", k, i), regs=True)
         self.cblog.append([G.Tag(k), i])
@@ -358,7 +386,7 @@ class World:
         self.ncb += 1
         st = self.st
         if self.ncb > MAX_CALLBACKS:
-            (st.remove_reader if k == "r" else st.remove_writer)(self.socks[i - 1])
+            (st.remove_reader if k == "r" else st.remove_writer)(self.keys[i - 1])
             return
         for op in self.case["react"].get("%s%d" % (k, i), [["rm", k, i]]):
             self.do(op)
@@ -369,15 +397,19 @@ class World:
         if kind == "add":
             k, i = op[1], op[2]
             import functools
-            (st.add_reader if k == "r" else st.add_writer)(self.socks[i - 1], functools.partial(self.callback, k, i))
+            (st.add_reader if k == "r" else st.add_writer)(self.keys[i - 1], functools.partial(self.callback, k, i))
         elif kind == "rm":
             k, i = op[1], op[2]
-            (st.remove_reader if k == "r" else st.remove_writer)(self.socks[i - 1])
+            (st.remove_reader if k == "r" else st.remove_writer)(self.keys[i - 1])
         elif kind == "env":
             self.env(op[1], op[2], op[3])
         elif kind == "close":
             if self.R.active:
                 st.close()
+        elif kind == "closefd":
+            with self.R.lock:
+                self.socks[op[1] - 1].close()
+                self.R.rec(("CloseFd", op[1]))
         elif kind == "sync":
             for sub in op[1]:
                 self.do(sub)
@@ -406,14 +438,28 @@ class World:
     async def ado(self, op):
         """operations that need the event loop to keep running while they wait"""
         R = self.R
-        if op[0] == "wait_gated":
+        if op[0] == "wait_selecting":
+            # let the loop run until the selector thread sits inside select()
+            end = time.time() + min(3.0, deadline())
+            while time.time() < end:
+                with R.lock:
+                    last = None
+                    for tid, lab, _, _ in reversed(R.events):
+                        if tid == R.sel_tid:
+                            last = lab[0]
+                            break
+                if last == "SelectCall":
+                    break
+                await asyncio.sleep(0.0005)
+        elif op[0] == "wait_gated":
             end = time.time() + min(3.0, deadline())
             while not R.gated.is_set() and time.time() < end:
                 await asyncio.sleep(0.0005)
         elif op[0] == "expect":
             key = (op[1], op[2])
+            want = op[3] if len(op) > 3 else 1
             end = time.time() + deadline()
-            while self.fired.get(key, 0) < 1 and R.active and not R.failed:
+            while self.fired.get(key, 0) < want and R.active and not R.failed:
                 if time.time() > end:
                     R.failed = "readiness-not-dispatched"
                     break
@@ -457,7 +503,7 @@ def execute(case):
             if op[0] == "sleep":
                 await asyncio.sleep(op[1] / 1000.0)
                 continue
-            if op[0] in ("wait_gated", "expect"):
+            if op[0] in ("wait_gated", "wait_selecting", "expect"):
                 await W.ado(op)
                 if R.failed:
                     break
@@ -561,6 +607,12 @@ def glabel(lab):
     if n in ("WakerSend", "ThreadStart", "StartSelect", "CloseEnter", "Joined", "CloseReturn",
              "Acquire", "Release", "Notify", "Wait", "Woke", "Exit"):
         return n
+    if n == "SelectErr":
+        return "SelectErr"
+    if n == "WakerPoll":
+        return "(WakerPoll %s)" % G.gbool(lab[1])
+    if n == "CloseFd":
+        return "(CloseFd %d)" % lab[1]
     if n == "WakerRecv":
         return "(WakerRecv %d)" % lab[1]
     if n in ("HandleEnter", "SelectCall", "Post"):
@@ -632,6 +684,14 @@ def py_check(case, obs):
             if not (set(lab[1]) <= set(handed[0]) and set(lab[2]) | set(lab[3]) <= set(handed[1])):
                 return False
             phase, got = "got", [lab[1], lab[2] + lab[3]]
+        elif n == "SelectErr":
+            if phase != "selecting" or t != "S":
+                return False
+            phase = "err"
+        elif n == "WakerPoll":
+            if phase != "err" or t != "S" or not lab[1]:
+                return False
+            phase, got = "got", [[], []]
         elif n == "Post":
             if phase != "got" or [lab[1], lab[2]] != got:
                 return False
@@ -682,9 +742,15 @@ def corpus_cases():
         mk([["add", "r", 1]], [["sleep", 3], ["sync", [["env", "r", 1, True], ["park"], ["close"]]]],
            {"r1": [["env", "r", 1, False]]}, seed=8),
         # registration change in the window between handing over the snapshot and select(): must be woken
-        mk([["add", "r", 1]], [["sleep", 3], ["gate_on"], ["env", "r", 1, True], ["wait_gated"],
+        mk([["add", "r", 1]], [["wait_selecting"], ["gate_on"], ["env", "r", 1, True], ["wait_gated"],
                                ["sync", [["env", "r", 2, True], ["add", "r", 2]]], ["gate_off"], ["expect", "r", 2]],
            {"r1": [["env", "r", 1, False]], "r2": [["env", "r", 2, False]]}, seed=9),
+        # EBADF recovery (seeded change C40_3): fd 2 is in the snapshot, then removed and closed before select()
+        mk([["add", "r", 1], ["add", "r", 2]],
+           [["wait_selecting"], ["gate_on"], ["env", "r", 1, True], ["wait_gated"], ["sync", [["rm", "r", 2], ["closefd", 2]]], ["gate_off"],
+            ["expect", "r", 1, 1], ["sleep", 2], ["env", "r", 1, True], ["expect", "r", 1, 2],
+            ["sync", [["env", "r", 3, True], ["add", "r", 3]]], ["expect", "r", 3]],
+           {"r1": [["env", "r", 1, False]], "r3": [["env", "r", 3, False]]}, seed=10),
         # level-triggered: callback does nothing, fd stays ready; bounded by MAX_CALLBACKS
         mk([], [["env", "r", 3, True], ["add", "r", 3], ["sleep", 4]], {"r3": []}, seed=7),
     ]
@@ -765,6 +831,7 @@ def gen_cases(rng, tier):
             ops = [["sleep", 3]]
         out.append(mk(pre, ops, react, seed=rng.randrange(10 ** 6), settle=rng.choice([1, 3])))
     out += handshake_cases(rng, 4 if tier == "quick" else 20)
+    out += ebadf_cases(rng, 4 if tier == "quick" else 20)
     # small-scope enumeration: every sequence of <= L basic operations on one fd, default reactions,
     # each under several jitter seeds
     basic = [["add", "r", 1], ["rm", "r", 1], ["add", "w", 1], ["rm", "w", 1], ["env", "r", 1, True], ["close"]]
@@ -796,12 +863,12 @@ def handshake_cases(rng, reps):
         # --- close() right after the selector was re-armed (it may be anywhere between wait() and select())
         out.append(mk([["add", "r", 1]], [["sleep", 2], ["env", "r", 1, True], ["sleep", rng.choice([0, 0, 1])], ["close"]], drain, seed=sd(), settle=0))
         # --- close() while the selector is held between the with-block and select()
-        out.append(mk([["add", "r", 1]], [["sleep", 3], ["gate_on"], ["env", "r", 1, True], ["wait_gated"],
+        out.append(mk([["add", "r", 1]], [["wait_selecting"], ["gate_on"], ["env", "r", 1, True], ["wait_gated"],
                                           ["sync", [["close"]]]], drain, seed=sd()))
         # --- registration changes in the window between handing over the snapshot and select()
-        out.append(mk([["add", "r", 1]], [["sleep", 3], ["gate_on"], ["env", "r", 1, True], ["wait_gated"],
+        out.append(mk([["add", "r", 1]], [["wait_selecting"], ["gate_on"], ["env", "r", 1, True], ["wait_gated"],
                                           ["sync", [["env", "r", 2, True], ["add", "r", 2]]], ["gate_off"], ["expect", "r", 2]], drain, seed=sd()))
-        out.append(mk([["add", "r", 1]], [["sleep", 3], ["gate_on"], ["env", "r", 1, True], ["wait_gated"],
+        out.append(mk([["add", "r", 1]], [["wait_selecting"], ["gate_on"], ["env", "r", 1, True], ["wait_gated"],
                                           ["add", "w", 3], ["gate_off"], ["expect", "w", 3]], drain, seed=sd()))
         # --- registration change while the report is in flight (selector parked, report queued)
         out.append(mk([["add", "r", 1]], [["sleep", 3], ["sync", [["env", "r", 1, True], ["park"], ["env", "r", 2, True], ["add", "r", 2]]],
@@ -809,6 +876,37 @@ def handshake_cases(rng, reps):
         # --- plain eventual dispatch
         out.append(mk([], [["add", "r", 1], ["sleep", rng.choice([0, 2])], ["env", "r", 1, True], ["expect", "r", 1]], drain, seed=sd()))
         out.append(mk([], [["sleep", 2], ["add", "w", 2], ["expect", "w", 2]], drain, seed=sd()))
+    return out
+
+
+def ebadf_cases(rng, reps):
+    """the EBADF recovery path of _run_select: an fd of the snapshot is unregistered AND closed before the
+    selector reaches select(); afterwards readiness of a still-registered fd and of a newly added fd must
+    still be dispatched, and close() must still return"""
+    out = []
+    drain = {"r1": [["env", "r", 1, False]], "r2": [["env", "r", 2, False]], "r3": [["env", "r", 3, False]],
+             "w2": [["rm", "w", 2]], "w3": [["rm", "w", 3]]}
+    for _ in range(reps):
+        sd = lambda: rng.randrange(10 ** 6)
+        tail = [["expect", "r", 1, 1], ["sleep", rng.choice([1, 2, 4])], ["env", "r", 1, True], ["expect", "r", 1, 2],
+                ["sync", [["env", "r", 3, True], ["add", "r", 3]]], ["expect", "r", 3]]
+        # victim registered for reading
+        out.append(mk([["add", "r", 1], ["add", "r", 2]],
+                      [["wait_selecting"], ["gate_on"], ["env", "r", 1, True], ["wait_gated"],
+                       ["sync", [["rm", "r", 2], ["closefd", 2]]], ["gate_off"]] + tail, drain, seed=sd()))
+        # victim registered for writing (made unwritable first so that it does not fire)
+        out.append(mk([["add", "r", 1]],
+                      [["env", "w", 2, False], ["add", "w", 2], ["wait_selecting"], ["gate_on"], ["env", "r", 1, True], ["wait_gated"],
+                       ["sync", [["rm", "w", 2], ["closefd", 2]]], ["gate_off"]] + tail, drain, seed=sd()))
+        # close() while the failed select is being recovered
+        out.append(mk([["add", "r", 1], ["add", "r", 2]],
+                      [["wait_selecting"], ["gate_on"], ["env", "r", 1, True], ["wait_gated"],
+                       ["sync", [["rm", "r", 2], ["closefd", 2], ["close"]]]], drain, seed=sd()))
+        # no gate: remove+close at an arbitrary moment (the selector is usually inside select already)
+        out.append(mk([["add", "r", 1], ["add", "r", 2]],
+                      [["sleep", rng.choice([0, 1, 3])], ["env", "r", 1, True], ["sync", [["rm", "r", 2], ["closefd", 2]]],
+                       ["expect", "r", 1, 1]] + tail,
+                      drain, seed=sd()))
     return out
 
 
@@ -830,6 +928,10 @@ def classify(case, obs):
         yield "selector-waited-on-cond"
     if "Woke" in labs:
         yield "selector-woken-by-notify"
+    if "SelectErr" in labs:
+        yield "select-failed-EBADF-and-recovered"
+    if "CloseFd" in labs:
+        yield "fd-closed-after-unregistering"
     if "ThreadStart" not in labs:
         yield "closed-before-start"
     # where was the selector thread when close() was entered / when a registration changed?
@@ -875,9 +977,10 @@ TRUSTED_BASE = [
     "recording subclass of SelectorThread (announces method entries, then calls the real method)",
     "select.select is run as zero-timeout polls under the trace lock so that the readiness it reports and the record are atomic; the OS scheduler "
     "chooses the interleavings actually exhibited (randomised sleeps widen the spread)",
-    "the EBADF/WSAENOTSOCK recovery path of _run_select, BlockingIOError on a full waker pipe, _atexit_callback and Windows-specific behaviour are not modelled",
+    "BlockingIOError on a full waker pipe, OSErrors other than EBADF in select, _atexit_callback and Windows-specific behaviour are not modelled; "
+    "the EBADF recovery path is modelled (SelectErr / WakerPoll) and exercised by closing an unregistered fd of the snapshot in the handover window",
 ]
-ASSUMPTIONS = ["fds registered with the selector stay open while registered (no EBADF path)",
+ASSUMPTIONS = ["an fd is closed only after it was unregistered (remove_reader/remove_writer returned): the documented legal sequence",
                "close() is called from top-level event-loop code, not from inside an fd callback"]
 RULE = ("random scenario scripts (add/remove reader/writer on up to 3 socketpairs, readiness changes, sleeps, close; random callback reactions incl. "
         "removing other fds, re-adding, level-triggered re-fire) + batches of 2-3 fds ready at once whose callbacks unregister each other "
